@@ -84,6 +84,58 @@ let c08_judge c obs =
     "bad " ^ sigv ^ " expected=" ^ to_string expect
   | _ -> "bad no-log expected=" ^ to_string expect
 
+(* ---------------- C20 ---------------- *)
+let c20_run spec c =
+  match c with
+  | L [A "auth"; L accts; hdr; dec] ->
+    let accts = List.map (function L [u; p] -> (str u, str p) | _ -> failwith "c20: bad account") accts in
+    let b64 _ = match dec with A "none" -> None | L [A "some"; d] -> Some (str d) | _ -> failwith "c20: bad oracle" in
+    let hdr = str hdr in
+    let gate = basic_auth b64 accts hdr in
+    if spec then
+      (* the property text: let through iff well-formed credentials and (no account list or password matches) *)
+      (match gate with
+       | Allow (_, _) -> L [A "auth"; A "t"; sint 200; sstr []]
+       | Deny401 -> L [A "auth"; A "f"; sint 401; sstr (str_of_ascii "Basic realm=\"THE REALM\"")]
+       | Deny403 -> L [A "auth"; A "f"; sint 403; sstr []])
+    else begin
+      (* the model: run the chain [auth middleware; downstream handler] through the dispatcher *)
+      let down = [OEff (EEv (nat_of_int 1)); OEff (EW (WSetStatus (z_of_int 200)))] in
+      let cfg = { globals = []; on_panic = None; on_error = None } in
+      match handle_request cfg false (TRoute ([auth_prog b64 accts hdr], down, [], [], [])) (ctx_init [] fresh_ctx).p_x with
+      | Done (x, _) ->
+        let ran = List.exists (function TE _ -> true | _ -> false) x.trace in
+        let status = match x.w.log with WH c :: _ -> int_of_z c | _ -> 0 in
+        let www = match gate with Deny401 -> str_of_ascii "Basic realm=\"THE REALM\"" | _ -> [] in
+        L [A "auth"; sbool ran; sint status; sstr www]
+      | _ -> L [A "auth"; A "error"]
+    end
+  | L [A "ovr"; m; fv; hv; A carrier] ->
+    let fv = if carrier = "n" then [] else str fv in
+    let (m', o) = method_override (str m) fv (str hv) in
+    L [A "ovr"; sstr m'; (match o with Some x -> sstr x | None -> A "none")]
+  | L [A "wrap"; n] ->
+    let n = int n in
+    let ws = List.init n (fun i -> fun h -> [sint (2 * i)] @ h @ [sint (2 * i + 1)]) in
+    let r = [sint 99] in
+    (match (if spec then Some (wrap_spec ws r) else wrap_loop ws r) with
+     | Some t -> L (A "wrap" :: t)
+     | None -> L [A "wrap"; A "nil"])
+  | L [A "wraph"; n; k] ->
+    let n = int n and k = int k in
+    let hs = List.init n (fun i -> if i = k then [OEff (EEv (nat_of_int (i * 10)))]
+                           else [OEff (EEv (nat_of_int (i * 10))); ONext; OEff (EEv (nat_of_int (i * 10 + 1)))]) in
+    let cfg = { globals = []; on_panic = None; on_error = None } in
+    (match handle_request cfg false (TRoute (hs, [OEff (EEv (nat_of_int 990))], [], [], [])) (ctx_init [] fresh_ctx).p_x with
+     | Done (x, _) -> L (A "wraph" :: List.concat (List.map (function TE t -> [snat t] | _ -> []) x.trace))
+     | _ -> L [A "wraph"; A "error"])
+  | x -> failwith ("c20: bad case " ^ to_string x)
+let c20_judge c obs =
+  let e = c20_run true c in
+  if to_string e = to_string obs then "ok" else
+    "bad " ^ (match c with L (A "auth" :: _) -> "auth-gate" | L (A "ovr" :: _) -> "method-override" | L (A "wrap" :: _) -> "wrapper-order" | _ -> "wrapped-handler-in-chain")
+    ^ " expected=" ^ to_string e
+
 (* judge by spec equality: the observation must be exactly what the spec function yields *)
 let judge_eq spec c obs =
   let e = to_string (spec c) in
@@ -93,6 +145,7 @@ let rec model_of p = match p with
   | "C14" -> (fun c -> match c with L (A "rt" :: _) -> Rt.model "C14" c | _ -> c14_model c)
   | "C11" -> c11_model
   | "C08" -> c08_model
+  | "C20" -> c20_run false
   | "C04" | "C05" | "C12" | "C09" | "C10" -> Rp.model
   | "C13" -> (fun c -> match c with
       | L (A "rp" :: _) -> (match Rp.model c with L [A "regpanic"] -> L [A "reg"; A "panic"] | _ -> L [A "reg"; A "ok"])
@@ -104,6 +157,7 @@ let judge_of = function
   | "C14" -> (fun c o -> match c with L (A "rt" :: _) -> Rt.c14r_judge c o | _ -> judge_eq c14_spec c o)
   | "C11" -> judge_eq c11_spec
   | "C08" -> c08_judge
+  | "C20" -> c20_judge
   | "C12" -> Rp.c12_judge
   | "C04" -> Rp.c04_judge
   | "C05" -> Rp.c05_judge
